@@ -97,7 +97,7 @@ class CoreGen(progs.ProgGen):
             if known and r.random() < 0.9:
                 return "←" + r.choice(known) + " "
             return "←" + r.choice(self.names) + " "
-        if x < 0.96 and not pure and not indef:
+        if x < 0.96 and not pure:
             n = r.choice(self.names)
             self.defined.add(n)
             return "→" + n + " "
@@ -228,6 +228,40 @@ class CoreGen(progs.ProgGen):
             return out + "W"
         return out
 
+    def scoping(self):
+        """Python scoping of VAR_<x> inside defs, closures over parameters / locals, functions calling each
+        other and themselves by name"""
+        r = self.rng
+        n = r.choice(["3", "4", "5", "2"])
+        return r.choice([
+            "@f:1|:[:‹@f;*|_1];" + n + " @f;",                       # recursion by name
+            "@e:1|:[‹@o;|_1];@o:1|:[‹@e;|_0];" + n + " @e;",          # mutual recursion
+            "@f:p|λ←p +;;" + n + " @f;→g 4 ←g†",                      # closure over a parameter, called after the return
+            "@f:p|←p λ←p *;†;" + n + " @f;",
+            "@f:p:q|λ←p ←q -;†;7 " + n + " @f;",
+            "@f|" + n + "→c λ←c ›;;@f;†",                            # closure over a local of the enclosing function
+            "@f|" + n + "→c λ←c ›→c ←c;†;@f;",                        # assignment makes c local to the lambda: unbound
+            n + "→a λ←a 6→a;†",                                       # read before assignment in the same def
+            n + "→a λ6→a ←a;† ←a W",                                  # the lambda's a is its own
+            "λ" + n + "→a;† ←a",                                      # a local never reaches the module
+            "@f;@f|1;",                                               # call before definition
+            "@f|1;@f;@f|2;@f;W",                                      # redefinition
+            n + "→a @f|←a ›;@f; 9→a @f;W",                            # a global is read at call time
+            "λ3(i|←i,);†",
+            n + "(i|λ←i d;†,)",
+            "λ@h|9;@h;;† @h;",                                        # a function defined in a lambda is local to it
+            "@f|@g|" + n + ";@g;;@f;",
+            "⟨" + n + "→a ←a|7⟩ ←a",
+            n + "→a ⟨←a|←a ›→a ←a⟩",
+            "@f:p|⟨←p|←p d⟩;" + n + " @f;",
+            "@f:p|3(←p n+,);" + n + " @f;",
+            "@f:p|←p 2<[←p|←p ‹@f; ←p ‹‹@f;+];" + n + " @f;",         # Fibonacci by name with a named parameter
+            "@f:p|←p ƛ←p;;" + n + " @f;",
+            n + "→a λ←a;→g 9→a ←g†",
+            "@f:p|λλ←p;;;" + n + " @f;††",
+            "@f:p|←p›→p ←p;" + n + " @f;",
+        ])
+
     def arity_mismatch(self, pure):
         """a lambda CALLED with another number of arguments than it was written with, whose body reads `n`:
         reduce / scan call with two, map / filter / sort-by with one, & with one"""
@@ -252,6 +286,8 @@ class CoreGen(progs.ProgGen):
         x = r.random()
         if d > 0 and 0.13 <= x < 0.16:
             return self.arity_mismatch(pure)
+        if d > 0 and not pure and 0.16 <= x < 0.20:
+            return self.scoping()
         if d > 0 and x < 0.04:
             return self.recursive_lambda(pure)
         if d > 0 and 0.04 <= x < 0.08:
@@ -307,7 +343,7 @@ class CoreGen(progs.ProgGen):
             return out + "]"
         if k in (2, 3):
             out = "("
-            if r.random() < 0.3 and not indef and not pure:
+            if r.random() < 0.3 and not pure:
                 out += r.choice(["i", "a"]) + "|"
             body = b(ctx="for")
             # an unbalanced early exit shows in what `n` means AFTER the loop
@@ -337,7 +373,7 @@ class CoreGen(progs.ProgGen):
             for _ in range(r.choice([0, 1, 1, 2])):
                 out += "|" + b(True, pure)
             return out + "⟩"
-        if k == 11 and not indef and not pure:
+        if k == 11 and not pure and (not indef or r.random() < 0.4):
             name = r.choice(self.fnames)
             params = r.choice(["", ":1", ":2", ":1:1", ":0", ":3", ":p", ":p:q", ":1:p", ":p:2", ":p:p", ":*", ":p:*", ":*:1"])
             saved, self.fn_locals = self.fn_locals, [x for x in ("p", "q") if x in params]
@@ -380,6 +416,11 @@ SEEDS = [
     "3(0{:n<|›},)", "⟨2|4⟩ƛ0{:n<|›};", "3 λ0{:n<|›};†", "2(3(0{:n<|:,›}))", "4 '0{:n<|›}2<;", "3(n λ0{:n<|›};†,)", "3(1{:n=¬|›},)",
     "4 3 ~λ2|_;", "4 3 ~λ2|+_;", "3(4 n ~λ2|_;,)", "4 3 ~λ2|$_;", "1 2 3 ~λ3|__;", "4 3 ~λ2|_λ›;†;", "4 3 &λ2|_;¥", "4 3 ₌λ2|_;λ2|+_;", "4 3 ₍λ2|_;λ1|_;",
     "⟨1|2|3⟩ 5 vλ2|_;", "⟨1|2|3⟩ ƒλ2|_;", "⟨1|2|3⟩ ɖλ2|$_;", "1 4 3 ßλ2|_;", "⟨4|5⟩ ~λ1|_;", "4 3 ~λ2|W;", "4 3 ~λ2|;",
+    "@f:1|:[:‹@f;*|_1];5 @f;", "@e:1|:[‹@o;|_1];@o:1|:[‹@e;|_0];4 @e;", "@e:1|:[‹@o;|_1];@o:1|:[‹@e;|_0];3 @e;", "@f:p|λ←p +;;3 @f;→g 4 ←g†",
+    "@f:p|←p λ←p *;†;3 @f;", "@f|3→c λ←c ›;;@f;†", "@f|3→c λ←c ›→c ←c;†;@f;", "5→a λ←a 6→a;†", "5→a λ6→a ←a;† ←a W", "λ5→a;† ←a", "@f;@f|1;",
+    "@f|1;@f;@f|2;@f;W", "3→a @f|←a ›;@f; 9→a @f;W", "λ3(i|←i,);†", "3(i|λ←i d;†,)", "λ@h|9;@h;;† @h;", "@f|@g|4;@g;;@f;", "⟨3→a ←a|7⟩ ←a",
+    "3→a ⟨←a|←a ›→a ←a⟩", "@f:p|⟨←p|←p d⟩;3 @f;", "@f:p|←p 2<[←p|←p ‹@f; ←p ‹‹@f;+];6 @f;", "3→a λ←a;→g 9→a ←g†", "@f:p|λλ←p;;;3 @f;††",
+    "@f:p|←p›→p ←p;3 @f;", "@f|5→f;@f;", "@f:p|←p ƛ←p;;3 @f;", "3→a λ[5→a]←a;†", "@f:p|@g|←p;@g;;7 @f;", "@f:p|@g|←p;←g;3 @f;→h 9 ←h†", "λ1→a λ←a;;†† ",
     "`ab`", "`a b`,", "\\a", "‛ab", "«ƛ«", "«ab«", "`ab` `c`+", "`ab` 3*", "3 `ab`*", "3 `ab`-", "`ab` 2-", "`abcab` `ab`-", "`hello` `el`*", "`aB`N",
     "`a b`›", "`ab`‹", "`ab`d", "``¬", "`a`¬", "`0`[1|2]", "``[1|2]", "`ab`(n,)", "`ab`L", "`ab`h", "``h", "`ab`t", "``t", "`ab`f", "`ab`Ṙ", "`ab`∑",
     "``∑", "`ab` 1\"", "1 `2`=", "`2` 2=", "`a` `b`<", "2 `10`<", "`b` `a`>", "`ab` 2J", "2 `ab`J", "`ab` `cd`J", "⟨1⟩ `ab`J", "`ab`ƛd;", "`ab`w", "`ab`W",
@@ -412,6 +453,8 @@ def impl_run(item):
     r = runprog.run(src, list(inputs), flag)
     err = r["error"]
     code = ERR_CODE.get(err, 9)
+    if code == 0 and not isinstance(r["stack"], list):
+        code, err = 9, "NoStackObserved"
     return (code, r["stack"] if code == 0 else [], r["out"], err, time.process_time() - t0)
 
 
@@ -649,7 +692,9 @@ def build_items(env):
 
 def run(env):
     env.rule = ("programs of the core grammar (generator CoreGen: number and string literals (`..`, two-character, character, compressed), the 37 core "
-                "elements with their number / string / list overloads, variables, function definitions / "
+                "elements with their number / string / list overloads, variables / named loop variables / function definitions anywhere incl. inside lambdas, functions and list items "
+                "(Python scoping: locals, closures over parameters and locals, unbound reads, recursion and mutual recursion by name, redefinition), variables and function definitions anywhere incl. inside lambdas / functions / list items (Python scoping: locals, closures over "
+                "parameters and locals, unbound reads, recursion and mutual recursion by name, redefinition), function definitions / "
                 "calls with numeric / named / * parameters, if / for / while, lambdas λ ƛ ' µ and shorthands ⁽ ‡ ≬, list literals, modifiers "
                 "v & ~ ß ƒ ɖ ₌ ₍, early exits X / x where the core covers them (break / continue in loops through ifs, early return and "
                 "recursion in plain lambdas incl. recursive templates with a base case, x as a modifier operand, x at top level); nesting depth <= 3 quick, "
